@@ -99,10 +99,19 @@ pub fn deploy_with_tokens(cfg: &Cfg, bsei_init: &[(&str, u128)], stsei_init: &[(
 
 /// Run a setup prefix; every step must succeed (seed construction is not part of the explored space).
 pub fn run_prefix(c: &mut Chain, prefix: &[crate::actions::Action]) {
+    if let Err(e) = try_prefix(c, prefix) {
+        panic!("krpmc: seed prefix {}", e);
+    }
+}
+
+/// Like `run_prefix`, for seeds that do not exist under every configuration (e.g. a prefix with an index update
+/// under a keeper rate of 0, where the known finding F1 makes the update fail): the caller skips the seed.
+pub fn try_prefix(c: &mut Chain, prefix: &[crate::actions::Action]) -> Result<(), String> {
     for a in prefix {
         let o = crate::actions::apply(c, a);
         if let Err(e) = &o.res {
-            panic!("krpmc: seed prefix step {} failed: {}", a.label, e);
+            return Err(format!("step {} failed: {}", a.label, e));
         }
     }
+    Ok(())
 }
